@@ -99,7 +99,7 @@ def run_kind(prog, res, kind):
             if name == "camera_get_frame" and slot == "get_frame" and val != OK and st.get(G_STARTED):
                 model.report(it, "HAL-FAIL-STOPS", "camera_get_frame|not-stopped",
                              "camera_get_frame: the driver's get_frame() failed on a started camera and the wrapper returns without the driver's stop() having been called; the HAL state is no longer Running, so no later stop reaches the driver")
-            if name == "camera_set" and slot == "set" and val != OK and st.get(G_STARTED):
+            if name == "camera_set" and slot == "set" and val != OK and st.get(G_STARTED) and before == RUN:
                 model.report(it, "HAL-FAIL-STOPS", "camera_set|not-stopped",
                              "camera_set: the driver rejected the settings of a started camera and the wrapper returns without the driver's stop() having been called; the HAL state is no longer Running, so no later stop reaches the driver")
             if name == "camera_stop" and slot == "stop" and state[1] == RUN:
